@@ -27,6 +27,7 @@ def run(ctx):
     stream.no_multi_octet_match_on_transient_slice(ctx, P)
     from rules import c14
     c14.hasher_rules(ctx, P)
+    c14.check_reader_rules(ctx, P)
     # every consumer path of Message ends through the trailing-data check (read / read_to_end / fill_buf agree)
     from rules import c03
     c03.trailing(ctx, P)
